@@ -190,11 +190,11 @@ def Head.truncUninit (h : Head) (mint : Int) : Head :=
 
 /-- Is `fixes/C02-F2.patch` in /repo?  (`headAppender.AppendHistogram` honours
     `AppendOptions.DiscardOutOfOrder` like `Append` does.)  `false` = the code as found (finding C02-F2). -/
-def repoFixedC02F2 : Bool := false
+def repoFixedC02F2 : Bool := true
 
 /-- Is `fixes/C02-F3.patch` in /repo?  (`initAppender.SetOptions` remembers the options and hands them to
     the appender it creates at the first append.)  `false` = the code as found (finding C02-F3). -/
-def repoFixedC02F3 : Bool := false
+def repoFixedC02F3 : Bool := true
 
 structure Appender where
   v2 : Bool
